@@ -1,20 +1,130 @@
-import Ruint.Model.Codec.Rlp
-import Ruint.Model.Codec.Scale
-import Ruint.Model.Codec.Fixed
-import Ruint.Model.Codec.Der
+import Ruint.Lemmas.Codec.Rlp
+import Ruint.Lemmas.Codec.RlpParity
+import Ruint.Lemmas.Codec.Scale
+import Ruint.Lemmas.Codec.Fixed
+import Ruint.Lemmas.Codec.Der
 import Ruint.Model.Codec.Serde
 import Ruint.Model.Codec.Postgres
-/-! # C17 — decoders are total on untrusted input (theorems) -/
+/-!
+# C17 — decoders are total on untrusted input: no out-of-range value, canonical decoders reject non-minimal input
+
+The decoder models (`Model/Codec/*`) are TOTAL functions `bytes → Except Err (value × consumed)` (Lean checks
+termination), so "terminates without panicking" holds of the model by construction; for the IMPLEMENTATION it is
+carried by the correspondence (the real decoder's outcome must equal the model's `ok/err`; `panic` never matches).
+The theorems here are the content: **range** (`ok v → v < 2^bits`), **denotation** (the consumed prefix denotes `v`),
+and **canonicity** for alloy-rlp, fastrlp 0.3/0.4 and DER (`ok (v, n) → enc v = bs.take n`, so every non-minimal,
+over-long, zero-padded or otherwise malformed input is an error), for ALL widths and ALL byte strings.
+-/
 namespace Ruint.C17
 open Ruint Ruint.Codec
 
-/-- `try_from_be_slice` only returns values below `2^bits`. -/
-theorem tryFromBE_range (bits : Nat) (bs : List Nat) (v : Nat) (h : tryFromBE bits bs = some v) : v < 2 ^ bits := by
-  unfold tryFromBE at h
-  split at h
-  · simp at h
-  · split at h
-    · simp at h; omega
-    · simp at h
+/-! ## the byte-slice parsers every decoder ends in -/
+
+/-- `try_from_be_slice`: `Some v` iff at most `BYTES` bytes whose big-endian value is `v < 2^bits`. -/
+theorem try_from_be_slice_spec (bits : ℕ) (bs : List ℕ) (v : ℕ) :
+    tryFromBE bits bs = some v ↔ bs.length ≤ nbytes bits ∧ beVal bs = v ∧ v < 2 ^ bits :=
+  tryFromBE_eq_some bits bs v
+
+theorem try_from_le_slice_spec (bits : ℕ) (bs : List ℕ) (v : ℕ) :
+    tryFromLE bits bs = some v ↔ bs.length ≤ nbytes bits ∧ leVal bs = v ∧ v < 2 ^ bits :=
+  tryFromLE_eq_some bits bs v
+
+/-! ## alloy-rlp, fastrlp 0.3, fastrlp 0.4 (canonical) -/
+
+/-- an accepted input starts with the reference encoding of the returned value, exactly those bytes are consumed,
+    and the value is in range. (Short and long form.) -/
+theorem rlp_canonical (bits : ℕ) (bs : List ℕ) (hbs : IsBytes bs) (v n : ℕ) (h : Rlp.dec bits bs = .ok (v, n)) :
+    v < 2 ^ bits ∧ n ≤ bs.length ∧ bs.take n = Rlp.enc v := Rlp.dec_canonical bits bs hbs v n h
+
+/-- consequently every input that is not `enc v ++ tail` for an in-range `v` is an error: e.g. anything whose
+    consumed prefix differs from the reference encoding of the value it would denote. -/
+theorem rlp_rejects_noncanonical (bits : ℕ) (bs : List ℕ) (hbs : IsBytes bs)
+    (h : ∀ v, v < 2 ^ bits → ¬ (Rlp.enc v).length ≤ bs.length ∨ bs.take (Rlp.enc v).length ≠ Rlp.enc v) :
+    ∃ e, Rlp.dec bits bs = .error e := by
+  match hd : Rlp.dec bits bs with
+  | .error e => exact ⟨e, rfl⟩
+  | .ok (v, n) =>
+    exfalso
+    obtain ⟨h1, h2, h3⟩ := Rlp.dec_canonical bits bs hbs v n hd
+    have hl : (Rlp.enc v).length = n := by rw [← h3, List.length_take]; omega
+    rcases h v h1 with h4 | h4
+    · omega
+    · rw [hl] at h4; exact h4 h3
+
+/-- the error kinds of the brief, each witnessed on the model (non-canonical single byte, leading zero, overflow,
+    truncated, list, non-canonical long form, long-form length with a leading zero). -/
+theorem rlp_error_witnesses :
+    Rlp.dec 256 [0x81, 0x05] = .error .nonCanonicalSingleByte
+    ∧ Rlp.dec 64 [0x82, 0x00, 0x01] = .error .leadingZero
+    ∧ Rlp.dec 8 [0x82, 0x01, 0x00] = .error .overflow
+    ∧ Rlp.dec 256 [0x83, 0x01] = .error .inputTooShort
+    ∧ Rlp.dec 256 [0xc2, 0x01, 0x02] = .error .unexpectedList
+    ∧ Rlp.dec 256 [0xb8, 0x02, 0x01, 0x02] = .error .nonCanonicalSize
+    ∧ Rlp.dec 512 [0xb9, 0x00, 0x38] = .error .leadingZero := by decide
+
+/-! ## parity rlp (lenient towards non-minimal STRINGS by design; lists rejected after the fix) -/
+
+theorem rlp_parity_sound (bits : ℕ) (bs : List ℕ) (v : ℕ) (h : Rlp.decParity bits bs = .ok v) :
+    v < 2 ^ bits ∧ bs.headD 0 < 0xc0 ∧
+      ∃ hl vl, Rlp.payloadInfo bs = .ok (hl, vl) ∧ hl + vl ≤ bs.length ∧ vl ≤ nbytes bits
+        ∧ beVal ((bs.drop hl).take vl) = v := Rlp.decParity_sound bits bs v h
+
+/-- a list item denotes no integer: rejected (the pinned tree returned `258` for `c2 01 02` and `0` for `c0`). -/
+theorem rlp_parity_rejects_lists (bits : ℕ) (b : ℕ) (rest : List ℕ) (hb : 0xc0 ≤ b) :
+    Rlp.decParity bits (b :: rest) = .error .rlpExpectedToBeData := by
+  unfold Rlp.decParity
+  rw [if_pos (by simpa using hb)]
+
+/-! ## DER (canonical) -/
+
+/-- an accepted input IS the canonical encoding of the returned in-range value (no trailing data, minimal length
+    octets, minimal two's complement content with the sign byte exactly when needed). -/
+theorem der_canonical (bits : ℕ) (bs : List ℕ) (hbs : IsBytes bs) (v : ℕ) (h : Der.dec bits bs = .ok v) :
+    v < 2 ^ bits ∧ bs = Der.enc v := Der.dec_canonical bits bs hbs v h
+
+theorem der_error_witnesses :
+    Der.dec 256 [0x02, 0x02, 0x00, 0x01] = .error .noncanonical      -- redundant sign byte
+    ∧ Der.dec 256 [0x02, 0x01, 0x80] = .error .value                  -- negative
+    ∧ Der.dec 256 [0x02, 0x81, 0x01, 0x01] = .error .length           -- non-minimal length octets
+    ∧ Der.dec 8 [0x02, 0x02, 0x01, 0x00] = .error .noncanonical       -- too large
+    ∧ Der.dec 256 [0x02, 0x02, 0x01] = .error .incomplete             -- truncated
+    ∧ Der.dec 256 [0x02, 0x01, 0x01, 0x00] = .error .trailingData
+    ∧ Der.dec 256 [0x04, 0x01, 0x01] = .error .tag
+    ∧ Der.dec 256 [0x02, 0x80] = .error .indefiniteLength := by decide
+
+/-! ## SCALE -/
+
+theorem scale_compact_sound (bits : ℕ) (bs : List ℕ) (v n : ℕ) (h : Scale.decCompact bits bs = .ok (v, n)) :
+    v < 2 ^ bits ∧ Scale.CompactDenotes bs v n := Scale.decCompact_sound bits bs v n h
+
+theorem scale_fixed_sound (bits : ℕ) (bs : List ℕ) (v n : ℕ) (h : Scale.decFixed bits bs = .ok (v, n)) :
+    v < 2 ^ bits ∧ n ≤ bs.length ∧
+      ∃ len hl, Scale.decCompactU32 bs = .ok (len, hl) ∧ n = hl + len ∧ len ≤ nbytes bits
+        ∧ leVal ((bs.drop hl).take len) = v := Scale.decFixed_sound bits bs v n h
+
+/-! ## SSZ, borsh, bincode: fixed width — accepted input IS the encoding; wrong length is an error -/
+
+theorem ssz_sound (bits : ℕ) (bs : List ℕ) (hbs : IsBytes bs) (v : ℕ) (h : Fixed.decSsz bits bs = .ok v) :
+    v < 2 ^ bits ∧ bs = Fixed.encSsz bits v := Fixed.decSsz_sound bits bs hbs v h
+
+/-- truncated (or over-long) SSZ input is an error (the pinned tree accepted shorter input). -/
+theorem ssz_wrong_length (bits : ℕ) (bs : List ℕ) (h : bs.length ≠ nbytes bits) :
+    Fixed.decSsz bits bs = .error .invalidByteLength := Fixed.decSsz_wrong_length bits bs h
+
+theorem borsh_sound (bits : ℕ) (bs : List ℕ) (hbs : IsBytes bs) (v : ℕ) (h : Fixed.decBorsh bits bs = .ok v) :
+    v < 2 ^ bits ∧ bs = Fixed.encBorsh bits v := Fixed.decBorsh_sound bits bs hbs v h
+
+theorem borsh_reader_sound (bits : ℕ) (bs : List ℕ) (hbs : IsBytes bs) (v n : ℕ)
+    (h : Fixed.decBorshReader bits bs = .ok (v, n)) :
+    v < 2 ^ bits ∧ n = nbytes bits ∧ n ≤ bs.length ∧ bs.take n = Fixed.encBorsh bits v :=
+  Fixed.decBorshReader_sound bits bs hbs v n h
+
+theorem bincode_sound (bits : ℕ) (bs : List ℕ) (hbs : IsBytes bs) (v : ℕ) (h : Fixed.decBincode bits bs = .ok v) :
+    v < 2 ^ bits ∧ 8 + nbytes bits ≤ bs.length ∧ leVal (bs.take 8) = nbytes bits
+      ∧ (bs.drop 8).take (nbytes bits) = Fixed.encSerdeBinary bits v := Fixed.decBincode_sound bits bs hbs v h
+
+/-! ## num-bigint -/
+theorem bigint_sound (bits : ℕ) (neg : Bool) (mag v : ℕ) (h : Fixed.fromBigInt bits neg mag = .ok v) :
+    v < 2 ^ bits ∧ neg = false ∧ v = mag := Fixed.fromBigInt_sound bits neg mag v h
 
 end Ruint.C17
